@@ -424,3 +424,4 @@ MANIFEST = {
 }
 MANIFEST["text"] += ' Also: the rollback path recorded by set._assign is built from the canonical key the value is stored under.'
 MANIFEST["text"] += " R6 also: merge() combines layers with the nested update(), not dict.update; the 'new-defaults' arm compares a live value with the default only under `k in defaults` (defaults.get(k) equals an explicit None)."
+MANIFEST["text"] += " R4 also: the key tested against 'device' is the key returned, or no deprecated name maps to 'device'; R5 accepts the bulk replay form."
